@@ -312,6 +312,10 @@ func (x *g) item(kind string) {
 		name = x.id("K")
 		t = append(t, "const", name, "=")
 		v := x.constValue()
+		if r.P(0.05) {
+			// a constant defined from itself (accepted: its value is its own name)
+			v = []string{name}
+		}
 		t = append(t, v...)
 		x.f.Consts[name] = v
 		defer func() { x.consts = append(x.consts, name) }()
